@@ -70,8 +70,9 @@ DropFail(t) ==
 \* Concurrent managed sends each hold a borrowed id from the moment they start until they are registered or give it
 \* back: a further send may find the pool empty although fewer than N requests are registered yet. C09 counts those
 \* as sends in progress, not as a wrong refusal: the refusal is allowed when registered + other managed sends that have
-\* been called and have not taken effect reach N.
-PendingManaged(t) == Cardinality({u \in ThreadNames \ {t} : th[u].st = "called" /\ th[u].e.op = "M"})
+\* been called and have not returned with a request reach N.
+PendingManaged(t) == Cardinality({u \in ThreadNames \ {t} : /\ th[u].st \in {"called", "lin"} /\ th[u].e.op = "M"
+                                                             /\ (th[u].st = "lin" => ~th[u].acc)})   \* (refused, not yet returned: may still hold its id)
 
 \* the operation of thread t takes effect now
 Lin(t) ==
